@@ -202,6 +202,10 @@ H("c06_permissions_p_value", "encryption.rs", {"C06": Q}, ["encryption::Permissi
 XF = ["parser_aux::decode_xref_stream"]
 for n in ("c02_xrefstm_index_c6_w2", "c02_xrefstm_noindex_c6_w2", "c02_xrefstm_index_c8_w4", "c02_xrefstm_two_sections", "c04_xrefstm_hostile_widths", "c04_xrefstm_hostile_index"):
     H(n, "parser_aux.rs", {"C02": X}, XF, "cross-reference stream decoding vs ISO 7.5.8 reference (did not reach a verdict)", timeout=1200, mem_gb=12, stubs=LS)
+for w in ("w121", "w020", "w132"):
+    H(f"c02_xrefstm_rec_{w}", "parser_aux.rs", {"C02": X}, XF + ["parser_aux::read_big_endian_integer", "parser_aux::parse_integer_array"],
+      f"cross-reference stream with widths {w[1]} {w[2]} {w[3]}, Index [start 2] (start 0..=1000), all contents of two entries: entries handed to the table (recorded; Xref::insert stubbed) equal the ISO 7.5.8.3 reference", timeout=1500, mem_gb=12,
+      stubs=LS + ["xref::Xref::insert -> recorder (std BTreeMap insertion is out of reach)"])
 H("c07_xref_merge_newest_wins", "xref.rs", {"C07": X}, ["xref::Xref::merge"], "newer = {1,2,4}, older = {2,3,4}", timeout=900)
 H("c02_xref_max_id", "xref.rs", {"C02": X}, ["xref::Xref::max_id"], "any three ids", timeout=600)
 for n in ("ab_3", "aa_4"):
